@@ -12,10 +12,18 @@ CONSTANT ObsFile
 Obs == ndJsonDeserialize(ObsFile)
 
 \* cause classification for known findings: structural, derived from the operational model
-\* the known defect explains a panic only for inputs on which the modelled code actually reaches the loop
+\* the known defect explains a wrong outcome only on inputs for which the operational model (which contains the
+\* deviation) predicts exactly the observed outcome: panic for panic, the same wrong value for a wrong value
 CauseC02(r) == LET ir == PlanTop(r.cfg, r.s, r.t) IN
-               IF ~IsFail(ir) /\ HasFixedNoMake(ir) /\ IsPanic(Eval(ir, FromJson(r["in"])))
-               THEN "array-to-slice-without-make" ELSE "unexplained"
+               IF IsFail(ir) \/ ~HasFixedNoMake(ir) THEN "unexplained"
+               ELSE LET m == EvalTop(ir, FromJson(r["in"])) IN
+                    IF IsPanic(m) = r.panic /\ (r.panic \/ Strip(m) = Strip(FromJson(r.out)))
+                    THEN "array-to-slice-without-make" ELSE "unexplained"
+
+\* the known defect explains a shared address only on inputs for which the model itself predicts the sharing
+CauseC04(r, in) == LET ir == PlanTop(r.cfg, r.s, r.t) IN
+                   IF ~IsFail(ir) /\ HasValptrShare(ir) /\ ~IsPanic(EvalTop(ir, in)) /\ ~ShareOK(r.cfg, r.s, r.t, EvalTop(ir, in))
+                   THEN "address-of-uncopied-source-position" ELSE "unexplained"
 
 FingerGen(r) ==
   IF r.gen = "panic" THEN {<<"C13", "generator-panic", r.why, r.id>>}
@@ -36,7 +44,7 @@ FingerExec(r) ==
       exp == SMap(r.cfg, r.s, r.t, in) IN
   (IF r.panic THEN {<<"C02", "panic", CauseC02(r), r.id>>}
    ELSE IF Strip(out) # exp THEN {<<"C02", "value", CauseC02(r), r.id>>} ELSE {})
-  \cup (IF ~r.panic /\ ~ShareOK(r.cfg, r.s, r.t, out) THEN {<<"C04", "shares", "", r.id>>} ELSE {})
+  \cup (IF ~r.panic /\ ~ShareOK(r.cfg, r.s, r.t, out) THEN {<<"C04", "shares", CauseC04(r, in), r.id>>} ELSE {})
   \cup (IF ~r.panic /\ after # FromJson(r.pre) THEN {<<"C04", "source-changed", "", r.id>>} ELSE {})
   \cup (IF r.race THEN {<<"C04", "race", "", r.id>>} ELSE {})
 
